@@ -374,6 +374,8 @@ func P4() []*Program {
 		{"snake", "order_qty"}, {"digits", "Order2Qty"}, {"underscore", "_order"}, {"acronym", "OrderID"},
 		// a name that is, as a whole, a common initialism (naming libraries keep tables of those)
 		{"initialism", "ID"},
+		// a name that contains a word of the language
+		{"typeword", "zcharLegacy"},
 	}
 	var out []*Program
 	for _, s := range shapes {
